@@ -385,6 +385,10 @@ class World:
             b["get_ipython"] = v_get_ipython
         return b
 
+    def unflushed(self, name):
+        """Number of records written to `name` that still sit in the buffer of an open file object."""
+        return len([r for f in getattr(self, "open_files", []) if f.name == name and not f.closed for r in f.buffer])
+
     def read_lines(self, name):
         """Text lines of a virtual file as the reader sees them (flushed content only)."""
         import gc
